@@ -117,6 +117,8 @@ def main():
             when = clock[0] + rng.choice([0.0, 3.0])
             mids = [r["id"] for r in cdb.execute("SELECT id FROM mailboxes WHERE app_id=?", (a,)).fetchall()] + ["m1", "fresh"]
             mid = rng.choice(mids)
+            if target == "Mailbox.close" and len(mids) > 2:
+                mid = rng.choice(mids[:-2])
             name = rng.choice(["1", "2", "x", "new"])
             held = cdb.execute("SELECT n.name AS name, s.side AS side FROM nameplate_sides s JOIN nameplates n ON n.id=s.nameplates_id"
                                " WHERE n.app_id=?", (a,)).fetchall()
@@ -151,7 +153,42 @@ def main():
                 elif target == "AppNamespace.claim_nameplate":
                     rec["args"] = {"name": name, "side": side, "when": when}
                     app2 = S.AppNamespace(cdb, udb, blur, False, a, True)      # fresh namespace: empty registry
-                    rec["result"] = app2.claim_nameplate(name, side, when)
+                    try:
+                        rec["result"] = app2.claim_nameplate(name, side, when)
+                    finally:
+                        rec["registry_post"] = sorted(app2._mailboxes)
+                elif target == "AppNamespace.open_mailbox":
+                    rec["args"] = {"mailbox_id": mid, "side": side, "when": when}
+                    app2 = S.AppNamespace(cdb, udb, blur, False, a, True)
+                    try:
+                        app2.open_mailbox(mid, side, when)
+                        rec["result"] = "newobj"
+                    finally:
+                        rec["registry_post"] = sorted(app2._mailboxes)
+                elif target == "AppNamespace.allocate_nameplate":
+                    rec["args"] = {"side": side, "when": when}
+                    app2 = S.AppNamespace(cdb, udb, blur, False, a, True)
+                    try:
+                        rec["result"] = app2.allocate_nameplate(side, when)
+                    finally:
+                        rec["registry_post"] = sorted(app2._mailboxes)
+                elif target == "Mailbox.close":
+                    if not cdb.execute("SELECT * FROM mailboxes WHERE id=? AND app_id=?", (mid, a)).fetchone():
+                        continue
+                    opened = [r["side"] for r in cdb.execute("SELECT side FROM mailbox_sides WHERE mailbox_id=?", (mid,)).fetchall()]
+                    if opened and rng.random() < 0.8:
+                        side = rng.choice(opened)
+                    mood = rng.choice([None, "happy", "lonely", "scary", "errory", "odd"])
+                    app2 = S.AppNamespace(cdb, udb, blur, False, a, True)
+                    mb = S.Mailbox(app2, cdb, udb, a, mid)
+                    app2._mailboxes[mid] = mb
+                    rec["mailbox_id"] = mid
+                    rec["registry_pre"] = [mid]
+                    rec["args"] = {"side": side, "mood": mood, "when": when}
+                    try:
+                        mb.close(side, mood, when)
+                    finally:
+                        rec["registry_post"] = sorted(app2._mailboxes)
                 elif target == "AppNamespace._get_nameplate_ids":
                     rec["result"] = sorted(app._get_nameplate_ids())
                 elif target == "AppNamespace.prune":
